@@ -12,7 +12,7 @@ Parts
               carrying a Delay of 0, 0.5, 1, 2 or 10 s).
   ties      : 2-3 equal-onset rows (one marker each) in a file that really has to be re-sorted (an unrelated
               Delay-shifted marker lands before them), followed by 0-3 later rows.
-  long      : seeded random files of 24-60 rows (above numpy's small-array sort threshold) with many equal onsets,
+  long      : seeded random files of 24-60 rows with many equal onsets,
               several non-colliding Delay shifts, plain tags and n/a rows; definitions come from a sidecar.
 """
 import io
@@ -28,7 +28,6 @@ KINDS = ["Onset", "Offset", "Inset"]
 DEFS = ["(Definition/Aa, (Red))", "(Definition/Bb, (Blue))", "(Definition/Cc/#, (Label/#))"]
 NAMES_FULL = ["Aa", "aa", "Bb", "Cc/1", "Cc/2"]
 NAMES_SMALL = ["Aa", "aa"]
-NAMES_MID = ["Aa", "aa", "Cc/1"]
 
 
 # ----------------------------------------------------------------------------------------------------------------
@@ -244,7 +243,7 @@ def read_issues(issues):
 _state = {}
 
 
-def _defs(kind):
+def _defs():
     from hed.models import DefinitionDict
     if "dd" not in _state:
         _state["dd"] = DefinitionDict(DEFS, schema())
@@ -254,7 +253,7 @@ def _defs(kind):
 
 def validate_rows(rows, extras=None, use_sidecar=False):
     from hed.models import TabularInput, Sidecar
-    dd = _defs(None)
+    dd = _defs()
     df = rows_to_frame(rows, extras)
     if use_sidecar:
         sc = Sidecar(io.StringIO(_state["sidecar_text"]))
@@ -437,8 +436,9 @@ def run(w: Workload):
     w.rule = ("histories: every marker sequence (one per row, increasing onsets) over {Onset,Offset,Inset} x "
               "{Aa,aa,Bb,Cc/1,Cc/2} up to length 3 (quick) / 4, and over {Aa,aa} one longer; layouts: every sequence "
               "over {Onset,Offset,Inset} x {Aa,aa} up to length 3 (quick) / 4 x every layout (same row | equal-onset row | "
-              "later row per boundary) x (no Delay | one marker delayed by 0/0.5/1/2/10 s; at the longest length 0.5/1 s and first name 'Aa'); long: seeded random files of "
-              "24-60 rows.  Distinct = distinct (markers, layout, delay).")
+              "later row per boundary) x (no Delay | one marker delayed by 0/0.5/1/2/10 s; at the longest length 0.5/1 s and "
+              "first name 'Aa'); ties: 2-3 equal-onset single-marker rows after an unrelated Delay-shifted marker, 0-3 "
+              "later rows; long: seeded random files of 24-60 rows.  Distinct = distinct file (rows, markers, delays).")
     cases = list(gen_cases(w.quick))
     counts = {}
     for c in cases:
@@ -478,6 +478,9 @@ def run(w: Workload):
         "was already used at that time point is reported and has no further effect",
         "when a Delay-shifted marker lands on a time point that also holds a marker of the same name the property does "
         "not fix their relative order: every insertion order is accepted (counted as order_ambiguous_cases)",
+        "a mismatch that would be correct bookkeeping for some other order of the rows sharing an onset is reported under "
+        "C10.equal_onset.rows_take_effect_in_file_order (order-dependence), every other mismatch under the C10.unmatched / "
+        "C10.same_name / C10.delay_tie clauses",
         "issue kinds are recognised by the message text of TEMPORAL_TAG_ERROR issues (the dictionaries carry no sub-code)",
         "the row of a report is only required to be one of the file rows contributing to the time point (the validator "
         "reports the first row of a merged time point, also for markers written in another row)",
